@@ -515,6 +515,66 @@ def run(prog: Program, res: Result) -> None:
                 else:
                     res.fail("C17.R2", file=rel, line=sub.lineno, qualname=fi.qualname, construct=sub, message="unguarded single-index read of the source: raises IndexError at end of input", what=what)
     res.floor("C17.R2", "ErrorToken constructions", n_err, 5)
+    # ---------------------------------------------------------------- R2b: an error token's value is the text at its index
+    res.rule("C17.R2b", "every ErrorToken built by the lexer carries as `value` the source text that starts at its `index` (value = self.source[I:J] with index = I, possibly clamped; a peeked character with index = self.pos; or empty): stop = index + len(value) then lies inside the source and the span is the text it was scanned from")
+
+    def _strip_clamp(e: ast.expr) -> ast.expr:
+        if isinstance(e, ast.Call) and isinstance(e.func, ast.Name) and e.func.id in ("min", "max") and len(e.args) == 2:
+            rest = [a for a in e.args if not (isinstance(a, ast.BinOp) and "len(self.source)" in norm(a)) and not (isinstance(a, ast.Constant) and a.value == 0)]
+            if len(rest) == 1:
+                return _strip_clamp(rest[0])
+        return e
+
+    for fi in prog.all_functions():
+        if fi.module is not mod:
+            continue
+        for c in ast.walk(fi.node):
+            if not (isinstance(c, ast.Call) and (dotted(c.func) or "").endswith("ErrorToken")):
+                continue
+            kw = {k.arg: k.value for k in c.keywords if k.arg}
+            idx, val = kw.get("index"), kw.get("value")
+            if idx is None or val is None:
+                continue
+            base = norm(_strip_clamp(idx))
+            what = f"ErrorToken(index={norm(idx)}, value={norm(val)})"
+            ok, why = False, ""
+            if isinstance(val, ast.Subscript) and _is_self_attr(val.value, "source") and isinstance(val.slice, ast.Slice) and val.slice.lower is not None:
+                ok = norm(val.slice.lower) == base
+                why = f"value is source[{norm(val.slice.lower)}:…], index is {base}"
+            elif isinstance(val, ast.Constant) and val.value == "":
+                ok, why = True, "empty value"
+            elif isinstance(val, ast.Name):
+                # a character obtained from self.peek() (the character at self.pos, '' at the end of input)
+                defs = [a.value for a in ast.walk(fi.node) if isinstance(a, ast.Assign) and any(isinstance(t, ast.Name) and t.id == val.id for t in a.targets)]
+                ok = bool(defs) and all(isinstance(d, ast.Call) and norm(d) == "self.peek()" for d in defs) and base == "self.pos"
+                why = f"value is the peeked character, index is {base}"
+            else:
+                why = "value expression not recognised"
+            if ok:
+                res.ok("C17.R2b", f"{rel}:{c.lineno} {fi.qualname}", what, why)
+            else:
+                res.fail("C17.R2b", file=rel, line=c.lineno, qualname=fi.qualname, construct=f"ErrorToken index/value disagree: {why}", message=f"{fi.qualname} builds an error token whose value does not start at its index ({why}): stop = index + len(value) can lie beyond the source and the span is not the text it was scanned from", what=what)
+
+    # ---------------------------------------------------------------- R2c: lexer errors are positioned
+    res.rule("C17.R2c", "every error raised by the lexer carries a token (raise …Error(msg, token=<not None>) or self.error()/raise_for_token()): a syntax error found while scanning always has a position to report")
+    n_raise = 0
+    for fi in prog.all_functions():
+        if fi.module is not mod:
+            continue
+        for r in ast.walk(fi.node):
+            if not (isinstance(r, ast.Raise) and isinstance(r.exc, ast.Call)):
+                continue
+            name = (dotted(r.exc.func) or "").split(".")[-1]
+            if not name.endswith("Error"):
+                continue
+            n_raise += 1
+            tok = next((k.value for k in r.exc.keywords if k.arg == "token"), None)
+            what = f"{fi.qualname}: raise {name}(…, token={norm(tok) if tok is not None else '<missing>'})"
+            if tok is None or (isinstance(tok, ast.Constant) and tok.value is None):
+                res.fail("C17.R2c", file=rel, line=r.lineno, qualname=fi.qualname, construct=f"raise {name} without a token", message=f"{fi.qualname} raises {name} with no token: the error has no position at all although the lexer knows where it is", what=what)
+            else:
+                res.ok("C17.R2c", f"{rel}:{r.lineno} {fi.qualname}", what, "carries a token")
+    res.floor("C17.R2c", "raise sites in the lexer", n_raise, 5)
 
     progress_rule(prog, res, lexer, lm, state_fns)
 
